@@ -245,6 +245,8 @@ func (dtnet *libp2pDataTransferNetwork) handleNewStream(s network.Stream) {
 		switch s.Protocol() {
 		case datatransfer.ProtocolDataTransfer1_2:
 			received, err = message.FromNet(s)
+		default:
+			err = fmt.Errorf("unrecognized protocol on stream: %s", s.Protocol())
 		}
 
 		if err != nil {
